@@ -21,7 +21,7 @@ ASSUMPTIONS = [
     "verdict theorem are those of the same id",
 ]
 
-TRIGGERS = {}   # no known finding is left: all three C19 findings are repaired in /repo (fixed entries, corpus replays)
+TRIGGERS = {2: "C19.guilty_without_validator_record"}
 CODES = {
     1: "an account that is not an active validator opened an allegation",
     2: "a vote was accepted from a non-active or frozen validator, or a second vote of the same validator",
@@ -34,6 +34,7 @@ CODES = {
     9: "a frozen byzantine-fault record changed although the validator was not released",
     10: "a frozen validator is still active after EndBlock",
     11: "a transaction that names a validator but is not signed by it was executed",
+    12: "a request whose votes cross a share is still open after EndBlock (the decision is taken again every block)",
 }
 CLASSES = {1: "transaction ok/fail", 2: "requests", 3: "tracker", 4: "suspicious-validator records", 5: "validator status records",
            6: "stake totals", 7: "bounty balance", 8: "verdict events"}
